@@ -697,14 +697,17 @@ fn exec_b(seq: &[Cyc], render: bool) -> RunOutput {
                 if let Some(i) = b.w.sim.tasks.iter().position(|t| t.name == name) {
                     b.w.sim.cancel_task(i);
                 }
-                let got = b.settle();
-                if !got.is_empty() {
-                    b.v("cancelled-open.frames", format!("cycle {pos} ({c:?}): giving up a pending request puts nothing on the wire by itself (the peer has not answered yet); got {got:?}"));
+                // (an implementation may tell the peer at once that the request is off -- a Reset for that id -- or say
+                // nothing until the peer answers; anything else on the wire has no cause)
+                let at_cancel = b.settle();
+                if at_cancel.iter().any(|m| !matches!(m, RMsg::Frame(RFrame::Reset { id }) if *id == fid)) {
+                    b.v("cancelled-open.frames", format!("cycle {pos} ({c:?}): giving up a pending request caused frames other than a Reset of that request's id: {at_cancel:?}"));
                 }
+                let told_at_cancel = !at_cancel.is_empty();
                 if matches!(c, Cyc::LocalOpenCancelledLateAck) {
                     b.raw.send(&RFrame::Acknowledge { id: fid, n: 2 });
                     let got = b.settle();
-                    if !got.iter().any(|m| matches!(m, RMsg::Frame(RFrame::Reset { id }) if *id == fid)) {
+                    if !told_at_cancel && !got.iter().any(|m| matches!(m, RMsg::Frame(RFrame::Reset { id }) if *id == fid)) {
                         b.v("abort.no-reset", format!("cycle {pos} ({c:?}): the peer acknowledged a request whose requester had gone; the stream nobody owns must be aborted (Reset) so that the peer does not keep it; got {got:?}"));
                     }
                     b.wit |= W_CANCELLED_OPEN;
